@@ -142,6 +142,28 @@ func Compute(bc *core.Blockchain) Digest {
 		roles = append(roles, pubs(ks), hh, fmt.Sprint(err))
 	}
 	d["roles"] = h(roles)
+	// what every NEO holder could claim at the next block (answers of the NEO native that go through its in-memory
+	// cache of voter rewards) and what it holds
+	var claim []any
+	neoID := int32(-5)
+	for _, c := range bc.GetNatives() {
+		if c.Manifest.Name == "NeoToken" {
+			neoID = c.ID
+		}
+	}
+	n := 0
+	bc.SeekStorage(neoID, []byte{20}, func(k, v []byte) bool {
+		acc, err := util.Uint160DecodeBytesBE(k)
+		if err != nil {
+			return true
+		}
+		g, err := bc.CalculateClaimable(acc, height+1)
+		bal, upd := bc.GetGoverningTokenBalance(acc)
+		claim = append(claim, acc.StringLE(), fmt.Sprint(g), fmt.Sprint(err), fmt.Sprint(bal), upd)
+		n++
+		return n < 64
+	})
+	d["claimable"] = h(claim)
 	return d
 }
 
